@@ -22,10 +22,12 @@ def dump(harness_exe, what, outfile):
     return write_if_changed(os.path.join(vlib.COQ, "Generated", outfile), out)
 
 
+@vlib.locked
 def regen_alpha(exe):
     return dump(exe, "alpha", "Alpha.v")
 
 
+@vlib.locked
 def regen_valuetypes(exe=None):
     """coq/Generated/ValueTypes.v + ValueTypesStatus.v from the source text of /repo/src/value.rs
     (tools/valuetypes.py). Returns (ok, error text). On failure the previous ValueTypes.v is kept (the
@@ -46,6 +48,7 @@ def regen_valuetypes(exe=None):
     return True, ""
 
 
+@vlib.locked
 def regen_takes(exe=None):
     """coq/Generated/Takes.v + TakesProps.v from the source text of /repo/src (tools/takes.py, property C15).
     Returns the translator's error list; on errors the previous files are kept (checks/c15.py then counts the
@@ -59,6 +62,7 @@ def regen_takes(exe=None):
     return errors
 
 
+@vlib.locked
 def regen_all(exe):
     regen_alpha(exe)
     regen_exprtables(None)
@@ -67,6 +71,7 @@ def regen_all(exe):
     regen_coltypes(exe)
 
 
+@vlib.locked
 def regen_exprtables(ctx):
     """Generated/ExprTables.v (feature set fa) and ExprTablesMore.v (fc = option-more-parentheses)"""
     exe_fa = vlib.harness_build("fa")
@@ -76,6 +81,7 @@ def regen_exprtables(ctx):
     return a or b
 
 
+@vlib.locked
 def regen_coltypes(exe):
     """Generated/ColTypes.v (properties C13, C14): column type names per ColumnType shape x backend x
     auto-increment flag, obtained by executing prepare_column_def (harness/src/ddl.rs)"""
